@@ -26,6 +26,16 @@ class BuildError(Exception):
     pass
 
 
+class TieError(BuildError):
+    """the harness that ties the model to /repo's source no longer compiles against it: the code still builds, but the
+    correspondence can no longer be checked (reported as a violation with no-failing-input-found unless a check finds an input)"""
+
+    def __init__(self, harness, msg):
+        BuildError.__init__(self, msg)
+        self.harness = harness
+
+
+
 def sh(cmd, cwd=None, timeout=3600, inp=None, env=None):
     p = subprocess.run(cmd, cwd=cwd, shell=isinstance(cmd, str), input=inp, capture_output=True,
                        text=True, timeout=timeout, env=env)
@@ -261,7 +271,15 @@ def build_repo():
                    % (GUARD, REPO, BUILD, REPO, src, lib, probe, probe, probe))
             rc, o, e = sh(cmd, timeout=900)
             if rc != 0:
-                raise BuildError("harness does not compile against /repo:\n" + (o + e)[-4000:])
+                raise TieError("harness/wbprobe.cc", "harness does not compile against /repo:\n" + (o + e)[-4000:])
+        return time.time() - t0
+
+
+def build_gridprobe():
+    """harness/gridprobe.cc includes source/gwb-grid/main.cc to reach its ThreadPool; only C14 needs it"""
+    build_repo()
+    with Lock("repo"):
+        lib = os.path.join(BUILD, "lib", "libWorldBuilder.a")
         gp = os.path.join(WORK, "gridprobe")
         gsrc = os.path.join(VERIF, "harness", "gridprobe.cc")
         gmain = os.path.join(REPO, "source", "gwb-grid", "main.cc")
@@ -270,8 +288,9 @@ def build_repo():
                    % (GUARD, REPO, BUILD, REPO, gsrc, lib, gp, gp, gp))
             rc, o, e = sh(cmd, timeout=900)
             if rc != 0:
-                raise BuildError("gridprobe does not compile against /repo:\n" + (o + e)[-4000:])
-        return time.time() - t0
+                if os.path.exists(gp):
+                    os.remove(gp)
+                raise TieError("harness/gridprobe.cc", "gridprobe does not compile against /repo's gwb-grid/main.cc:\n" + (o + e)[-4000:])
 
 
 def build_repo_san(kind="asan"):
